@@ -42,6 +42,11 @@ def line_body_over_concat():
     return True
 
 
+def line_body_over_concat_off():
+    """proof hint (True): stop instantiating the law of line_body_over_concat() (where it is not needed)"""
+    return True
+
+
 def is_split_nl(xs, t):
     n = len(xs)
     return forall_range(0, n, lambda j: is_line(xs[j])) \
@@ -87,6 +92,7 @@ def register_models(M):
     M.model(is_line, texts.m_is_line)
     M.model(line_body, texts.m_line_body)
     M.model(line_body_over_concat, texts.m_line_body_over_concat)
+    M.model(line_body_over_concat_off, texts.m_line_body_over_concat_off)
     M.model(nlines, texts.m_nlines)
     M.model(line_at, texts.m_line_at)
     M.model(lines_of, texts.m_lines_of)
